@@ -2301,6 +2301,8 @@ func E5StitchingArity(c *core.Ctx, r *core.Report) {
 		return cnt{}, false
 	}
 	undecided := ""
+	relative := false // counts are those of one later iteration, not of the whole path
+	laterNonEmpty := map[types.Object]bool{}
 	var finals []cnt
 	var walk func(stmts []ast.Stmt, in state, loopVar types.Object, first bool) state
 	walk = func(stmts []ast.Stmt, in state, loopVar types.Object, first bool) state {
@@ -2366,26 +2368,100 @@ func E5StitchingArity(c *core.Ctx, r *core.Report) {
 					}
 					return tUnknown
 				}
-				t := evalBool(info, x.Cond, env)
 				out := state{}
-				if t != tFalse {
-					for s := range walk(x.Body.List, cur, loopVar, first) {
-						out[s] = true
+				for one := range cur {
+					single := state{one: true}
+					// a test of an array's length against 0 is decided by the count reached on this path (in a later
+					// iteration, where counts are relative, by what every path of a full iteration has appended)
+					envLen := func(e ast.Expr) tri {
+						if t := env(e); t != tUnknown {
+							return t
+						}
+						be, ok := e.(*ast.BinaryExpr)
+						if !ok {
+							return tUnknown
+						}
+						lenArr := func(e ast.Expr) (types.Object, bool) {
+							call, ok := core.Unparen(e).(*ast.CallExpr)
+							if !ok || len(call.Args) != 1 {
+								return nil, false
+							}
+							if fn, ok := core.Unparen(call.Fun).(*ast.Ident); !ok || fn.Name != "len" {
+								return nil, false
+							}
+							if a, ok := core.Unparen(call.Args[0]).(*ast.Ident); ok {
+								return core.ObjOf(info, a), true
+							}
+							return nil, false
+						}
+						arr, okL := lenArr(be.X)
+						op := be.Op
+						zero := be.Y
+						if !okL {
+							arr, okL = lenArr(be.Y)
+							zero = be.X
+							switch op {
+							case token.LSS:
+								op = token.GTR
+							case token.GTR:
+								op = token.LSS
+							case token.LEQ:
+								op = token.GEQ
+							case token.GEQ:
+								op = token.LEQ
+							}
+						}
+						if v, isC := core.ConstInt(info, zero); !okL || !isC || v != 0 {
+							return tUnknown
+						}
+						count, known := 0, true
+						switch arr {
+						case fsO:
+							count = one.f
+						case boundsO:
+							count = one.b
+						case encodeO:
+							count = one.e
+						default:
+							known = false
+						}
+						if !known {
+							return tUnknown
+						}
+						nonEmpty := count > 0 || (relative && laterNonEmpty[arr])
+						if relative && count == 0 && !laterNonEmpty[arr] {
+							return tUnknown
+						}
+						switch op {
+						case token.GTR, token.NEQ:
+							return triOf(nonEmpty)
+						case token.EQL, token.LEQ:
+							return triOf(!nonEmpty)
+						case token.GEQ:
+							return tTrue
+						case token.LSS:
+							return tFalse
+						}
+						return tUnknown
 					}
-				}
-				if t != tTrue {
-					switch el := x.Else.(type) {
-					case nil:
-						for s := range cur {
+					t := evalBool(info, x.Cond, envLen)
+					if t != tFalse {
+						for s := range walk(x.Body.List, single, loopVar, first) {
 							out[s] = true
 						}
-					case *ast.BlockStmt:
-						for s := range walk(el.List, cur, loopVar, first) {
-							out[s] = true
-						}
-					case *ast.IfStmt:
-						for s := range walk([]ast.Stmt{el}, cur, loopVar, first) {
-							out[s] = true
+					}
+					if t != tTrue {
+						switch el := x.Else.(type) {
+						case nil:
+							out[one] = true
+						case *ast.BlockStmt:
+							for s := range walk(el.List, single, loopVar, first) {
+								out[s] = true
+							}
+						case *ast.IfStmt:
+							for s := range walk([]ast.Stmt{el}, single, loopVar, first) {
+								out[s] = true
+							}
 						}
 					}
 				}
@@ -2403,13 +2479,28 @@ func E5StitchingArity(c *core.Ctx, r *core.Report) {
 					undecided = "a loop without a counter starting at 0"
 					return cur
 				}
+				firstIter := walk(x.Body.List, cur, lv, true)
+				laterNonEmpty = map[types.Object]bool{fsO: true, boundsO: true, encodeO: true}
+				for s := range firstIter {
+					if s.f == 0 {
+						laterNonEmpty[fsO] = false
+					}
+					if s.b == 0 {
+						laterNonEmpty[boundsO] = false
+					}
+					if s.e == 0 {
+						laterNonEmpty[encodeO] = false
+					}
+				}
+				relative = true
 				later := walk(x.Body.List, state{cnt{}: true}, lv, false)
+				relative = false
 				for s := range later {
 					if s.f-s.b != 0 || s.e != 2*s.f {
 						undecided = fmt.Sprintf("an iteration after the first adds %d function(s), %d bound(s) and %d encode value(s): the lengths drift apart with the number of stops", s.f, s.b, s.e)
 					}
 				}
-				cur = walk(x.Body.List, cur, lv, true)
+				cur = firstIter
 			case *ast.BlockStmt:
 				cur = walk(x.List, cur, loopVar, first)
 			case *ast.RangeStmt:
